@@ -86,6 +86,11 @@ def gen_reader_cases(ctx, n_streams):
     for line in fc.load_corpus('C06', 'reader.txt'):
         cases.append(fc.case_from_line(line))
         tags.append(({'corpus'}, 'corpus'))
+    # the buffer exactly full with 6 bytes consumed: a 5-byte exception reply, then a 256-byte reply whose address byte is consumed
+    small, huge = fc.rtu_frame(9, bytes([0x83, 2])), fc.rtu_frame(7, bytes([3, 251]) + bytes(range(251)))
+    for tail in [[huge[255:]], [huge[255:256] + small], [bytes([b]) for b in huge[255:]]]:
+        directed.append(('rtursp', [small + huge[:255]] + tail))
+        directed.append(('rtursp', [small, huge[:100], huge[100:255]] + tail))
     for role, d in directed:
         for fin in ['eof', 'pending']:
             for mode in ['stop', 'resume']:
@@ -287,6 +292,10 @@ def run(ctx):
     n_panic = sum(1 for e in emitted if e == 'PANIC')
     ctx.oblige('correspondence:rtu-client-emission', bad == 0 and n_panic == 0, f'{bad} bad frames, {n_panic} panics over {len(sent)} emitted frames ({len(emit_lines)} requests)')
     longest = max([len(e) // 2 for e, _ in sent], default=0)
+    if not ctx.replay and emit_lines:
+        loud = ctx.harness('rtu_emit', emit_lines[:100], args=['--decode', 'max'], shards=4)
+        diff = [k for k, (a, b) in enumerate(zip(loud, emitted[:100])) if a != b]
+        ctx.oblige('decode-level-does-not-change-emission', not diff, f'{len(diff)} of {len(loud)} differ' + (f'; first: {emit_lines[diff[0]][:120]}' if diff else ''))
 
     # ---- the server session: replies carry a correct CRC; corrupted requests cause no call and no reply
     if server_cases is None:
@@ -317,6 +326,10 @@ def run(ctx):
                 reply_src.append(fc.to_line(('rtureq', 'stop', fin, ch))[:200])
                 reply_rc.append({'server': 1, 'fin': fin, 'chunks': [x.hex() for x in ch]})
     bad_rep = check_emitted(ctx, 'server', replies, reply_src, reply_rc) if replies else 0
+    if not ctx.replay and server_cases:
+        loud = ctx.harness('server_session', [' '.join(['rtu', fin] + [(x.hex() if x else '-') for x in ch]) for fin, ch in server_cases[:150]], args=['--decode', 'max'], shards=4)
+        diff = [k for k, (a, b) in enumerate(zip(loud, srv[:150])) if a != b]
+        ctx.oblige('decode-level-does-not-change-server-session', not diff, f'{len(diff)} of {len(loud)} differ')
     ctx.oblige('correspondence:rtu-server-session', bad_srv == 0 and bad_rep == 0,
                f'{bad_srv} session mismatches over {len(server_cases)} sessions ({n_silent} must stay silent); {bad_rep} bad replies of {len(replies)}')
     longest = max([longest] + [len(x) // 2 for x in replies])
@@ -343,6 +356,8 @@ def run(ctx):
             bump(cls + ('->rejected' if 'BadFrame' in impl else '->other'))
         if stats.get('compactions', 0) > 0:
             bump('buffer:compacted')
+        if 0 < stats.get('min_compaction', 0) <= 7:
+            bump('buffer:full_with_1..7_consumed')        # end == capacity with begin in 1..7: compaction frees exactly that much
     for e, l in zip(emitted, emit_lines):
         bump('emit:' + l.split()[1] + (':refused' if e == 'ERR' else ''))
     for i in client_impl:
@@ -353,7 +368,7 @@ def run(ctx):
     if not ctx.replay:
         need = (['corrupt:%s->rejected' % c for c in CLASSES] + ['stream:fc:%d' % f for f in fc.FCS] +
                 ['stream:exception_reply', 'stream:length_preserving', 'stream:length_changing', 'ending:Crc', 'ending:UnknownFunctionCode',
-                 'ending:FrameLengthTooBig', 'role:rtureq', 'role:rtursp', 'schedule:byte_per_byte', 'mode:resume', 'stream:stale_state_bait', 'client_result:Ok', 'client_result:BadFrame', 'client_result:Exception'])
+                 'ending:FrameLengthTooBig', 'role:rtureq', 'role:rtursp', 'schedule:byte_per_byte', 'mode:resume', 'stream:stale_state_bait', 'buffer:full_with_1..7_consumed', 'client_result:Ok', 'client_result:BadFrame', 'client_result:Exception'])
         missing = [k for k in need if classes.get(k, 0) < 3]
         ctx.oblige('generator-reaches-expected-classes', not missing, 'missing: ' + ','.join(missing))
     nontrivial = set(fc.to_line(c) for c, (t, _) in zip(cases, tags) if any(x.startswith('corrupt:') for x in t))
